@@ -45,7 +45,7 @@ def main(argv=None):
     findings = load_findings()
     results, units, assumptions, errors, undecided = [], {}, set(), [], []
     paths = 0
-    bounded = []
+    bounded = []; bounded_cache = {}
     for o in outs:
         if o['error']:
             errors.append((o['job'], o['error']))
@@ -66,6 +66,27 @@ def main(argv=None):
         for u in o['units']:
             units[u['unit']] = u
         assumptions.update(o['assumptions']); paths += o['paths']
+        # obligations the solvers left open: the unit's bounded stand-in (if any) may decide them, labelled bounded, never counted as discharged
+        open_ = [r for r in o['results'] if r['verdict'] == 'undecided' and not r.get('exploratory') and not r.get('finding')]
+        fb = registry.bounded_for(o['job']) if open_ and not o['undecided'] and hasattr(registry, 'bounded_for') else None
+        if fb:
+            if fb not in bounded_cache:
+                try:
+                    p = subprocess.run(['/venv/bin/python', os.path.join(ROOT, fb)], capture_output=True, text=True, timeout=600, cwd='/repo', env=dict(os.environ, PYTHONPATH='/repo'))
+                    bounded_cache[fb] = (p.returncode, (p.stdout.strip().splitlines() or [''])[-1])
+                except Exception as ex_:      # noqa
+                    bounded_cache[fb] = (3, 'stand-in failed to run: %s' % ex_)
+            rc_, last = bounded_cache[fb]
+            names = sorted({r['name'] for r in open_})
+            if rc_ == 0:
+                bounded.append({'unit': o['job'], 'stand_in': fb, 'verdict': 'clean within bound', 'detail': last[:300], 'obligations_left_open_by_the_solvers': names[:20],
+                                'reason_not_proved': open_[0].get('reason', '?')})
+                o['results'] = [r for r in o['results'] if r not in open_]
+            elif rc_ == 1:
+                o['results'] = [r for r in o['results'] if r not in open_]
+                o['results'].append({'name': '%s/bounded/%s' % (prop, os.path.basename(fb)), 'prop': prop, 'verdict': 'refuted', 'backend': 'bounded-native', 'time': 0, 'finding': None,
+                                     'script': 'obligations %s left open by the solvers (%s); bounded stand-in %s found a failing input: %s' % (names[:4], open_[0].get('reason', '?')[:200], fb, last[:400]),
+                                     'bounded_input': last[:2000]})
         for r in o['results']:
             r['job'] = o['job']; results.append(r)
     # extra = lemma queries / native bounded checks / conformance runs: callables returning result dicts in the same format
